@@ -222,22 +222,34 @@ def failing_theorems(module, log):
     return sorted(names)
 
 
-def hygiene():
-    """grep the Lean sources for forbidden constructs outside comments."""
-    hits = []
-    for dirpath, _, files in os.walk(LEAN):
-        if ".lake" in dirpath:
+def import_closure(modules):
+    """Project-local modules reachable from `modules` through `import` lines."""
+    seen = set()
+    todo = list(modules)
+    while todo:
+        m = todo.pop()
+        if m in seen:
             continue
-        for fn in files:
-            if not fn.endswith(".lean"):
-                continue
-            p = os.path.join(dirpath, fn)
-            src = open(p).read()
-            src = re.sub(r"/-.*?-/", lambda m: "\n" * m.group(0).count("\n"), src, flags=re.S)
-            for i, line in enumerate(src.splitlines(), 1):
-                code = line.split("--")[0]
-                if FORBIDDEN.search(code):
-                    hits.append(f"{os.path.relpath(p, ROOT)}:{i}: {line.strip()}")
+        path = os.path.join(LEAN, *m.split(".")) + ".lean"
+        if not os.path.exists(path):
+            continue
+        seen.add(m)
+        for imp in re.findall(r"^import\s+(\S+)", open(path).read(), flags=re.M):
+            todo.append(imp)
+    return seen
+
+
+def hygiene(modules):
+    """grep the Lean sources the property depends on for forbidden constructs outside comments."""
+    hits = []
+    for m in sorted(import_closure(modules)):
+        p = os.path.join(LEAN, *m.split(".")) + ".lean"
+        src = open(p).read()
+        src = re.sub(r"/-.*?-/", lambda mm: "\n" * mm.group(0).count("\n"), src, flags=re.S)
+        for i, line in enumerate(src.splitlines(), 1):
+            code = line.split("--")[0]
+            if FORBIDDEN.search(code):
+                hits.append(f"{os.path.relpath(p, ROOT)}:{i}: {line.strip()}")
     return hits
 
 
@@ -313,7 +325,7 @@ def prepare(ctx, proof_modules, need_driver=True, race=False):
                 ctx.broken.append("proof-build:" + ",".join(proof_modules))
         else:
             st["audit"] = audit(ctx, proof_modules)
-        hits = hygiene()
+        hits = hygiene(list(proof_modules) + ["Driver.Main"])
         if hits:
             st["hygiene"] = hits
             for h in hits[:5]:
